@@ -329,7 +329,8 @@ func c11Gen(tier string, rng *rand.Rand, emit func(interface{})) {
 		}
 	}
 	// (b7) n > 30, band-aligned levels (the counterpart of `Auto` for n <= 30): c = the implementation's own
-	// float mass of a band [h, 2mu-h] with half-integer ends, and its neighbours 1..3 ulps away.  For such c
+	// float mass of a band [h, 2mu-h] with half-integer ends (or of that band without its top bucket, the
+	// left-biased trim), and its neighbours 1..3 ulps away.  For such c
 	// norm.InvCDF((1-c)/2) lands on (or within an ulp of) the band boundary h: the outward rounding is
 	// decided by the last bit, and "Confidence never below c" is tested where it is tightest.
 	nal := 40
@@ -342,8 +343,16 @@ func c11Gen(tier string, rng *rand.Rand, emit func(interface{})) {
 			n = 31 + rng.Intn(400)
 		}
 		q := 0.5
-		if rng.Intn(2) == 0 { // mu a multiple of 1/2: both ends of the symmetric band are half-integers together
+		switch rng.Intn(3) {
+		case 0: // mu a multiple of 1/2: both ends of the symmetric band are half-integers together
 			q = float64(1+rng.Intn(2*n-1)) / float64(2*n)
+		case 1: // ... and within 4 of 0 or n: one side of the band is already at (or beyond) the end of [0, n+1]
+			// when the other still has to be widened
+			k := 1 + rng.Intn(8)
+			if rng.Intn(2) == 0 {
+				k = 2*n - k
+			}
+			q = float64(k) / float64(2*n)
 		}
 		norm := stats.BinomialDist{N: n, P: q}.NormalApprox()
 		if !(norm.Sigma > 0) {
@@ -352,6 +361,9 @@ func c11Gen(tier string, rng *rand.Rand, emit func(interface{})) {
 		w := float64(rng.Intn(int(4*norm.Sigma) + 1))
 		h := math.Floor(norm.Mu-0.25) + 0.5 - w // a half-integer below mu
 		c0 := norm.CDF(2*norm.Mu-h) - norm.CDF(h)
+		if i%2 == 1 && 2*norm.Mu-h-1 > h { // ... or of that band minus its top bucket: aBiased == confidence to the last bit
+			c0 = norm.CDF(2*norm.Mu-h-1) - norm.CDF(h)
+		}
 		for d := -2; d <= 3; d++ {
 			cf := c0
 			for j := 0; j < d; j++ {
